@@ -14,6 +14,8 @@ instance : Num Float where
   mu0 := Float.ofBits Gen.Const.mu0Bits
   lt a b := a < b
   eq0 a := a == 0.0
+  log := Float.log
+  atan2 := Float.atan2
 
 def flt : P Float := do
   let k ← nat
@@ -36,6 +38,7 @@ def run : P String := do
   | "dipole" => do let f ← field; let m ← v3; let x ← v3; pure (out (bhjmDipole f m x))
   | "sphere" => do let f ← field; let d ← flt; let p ← v3; let x ← v3; pure (out (bhjmSphere f d p x))
   | "segment" => do let c ← flt; let p1 ← v3; let p2 ← v3; let po ← v3; pure (out (segmentH c p1 p2 po))
+  | "cuboid" => do let f ← field; let d ← v3; let p ← v3; let x ← v3; pure (out (bhjmCuboid f d p x))
   | "cuboidmask" => do
       let d ← v3; let p ← v3; let x ← v3
       let m := cuboidMasks d p x
